@@ -1217,15 +1217,16 @@ class Ev:
         """ghost assertion attached to `name = ...` by the contract (`cuts`): proved here, assumed afterwards.
         Used as an instantiation hint / lemma; never an assumption (it is an obligation first)."""
         c = self.frame.contract
-        if not isinstance(tgt, ast.Name) or c is None or self.pure or self.st.run.refute:
+        name = dotted(tgt)
+        if name is None or c is None or self.pure or self.st.run.refute:
             return
         cuts = getattr(c, "cuts", None) or {}
-        if tgt.id not in cuts or not self.frame.top:
+        if name not in cuts or not self.frame.top:
             return
         from .contract import spec_eval
-        for k, text in enumerate(cuts[tgt.id]):
+        for k, text in enumerate(cuts[name]):
             f = spec_eval(self, text)
-            self.st.oblige("%s/cut.%s.%d" % (c.id, tgt.id, k + 1), f, note=text, line=node.lineno)
+            self.st.oblige("%s/cut.%s.%d" % (c.id, name, k + 1), f, note=text, line=node.lineno)
             self.st.assume(f)
 
     def s_Assign(self, node):
